@@ -23,6 +23,11 @@ def shards(mode, bin_, n, **kw):
 
 
 PROPS = {
+    "C01": {
+        "runs": [{"mode": "native-dev", "bin": "c01"}],
+        "expect_monitors": ["round_trip", "commutation", "alpha_transparent_to_conversion"],
+        "assumptions": ASSUME_COMMON + ["source colours lie inside the intersection of all offered RGB gamuts (model-generated), so every target except luma can represent them"],
+    },
     "C02": {
         "runs": [{"mode": "native-dev", "bin": "c02"}],
         "expect_monitors": ["conversion_vs_model"],
